@@ -420,18 +420,18 @@ example : ((stringsLoop LibCfg.fixed { wantKey := [true], ctl := [0] } false .va
 
 /-- Known finding `strings-set-empty-noop`: Set with the empty text leaves element 0 as it was. -/
 theorem repo_not_correct_set_empty :
-    stringsSetAccepts false exS [seg "0"] srcEmpty (stringsSet LibCfg.repo false .ptr exS [seg "0"] srcEmpty) = false := by
+    stringsSetAccepts false exS [seg "0"] srcEmpty (stringsSet LibCfg.original false .ptr exS [seg "0"] srcEmpty) = false := by
   decide
 
 /-- Known finding `strings-empty-unequal`: two empty sequences are reported unequal. -/
 theorem repo_not_correct_empty_unequal :
     stringsDeqAccepts (.slice false [] 0) (.slice true [] 0)
-      (stringsDeq LibCfg.repo .val .val (.slice false [] 0) (.slice true [] 0)) = false := by
+      (stringsDeq LibCfg.original .val .val (.slice false [] 0) (.slice true [] 0)) = false := by
   decide
 
 /-- Known finding `strings-cmp-out-of-range`: index `len` compares the empty string instead of leaving the result alone. -/
 theorem repo_not_correct_cmp_out_of_range :
-    stringsCmpAccepts exS [seg "3"] 2 (seg "x") (stringsCmp LibCfg.repo .val exS [seg "3"] 2 (seg "x")) = false := by
+    stringsCmpAccepts exS [seg "3"] 2 (seg "x") (stringsCmp LibCfg.original .val exS [seg "3"] 2 (seg "x")) = false := by
   decide
 
 /-- Known finding `strings-nil-ptr-panics`: a typed-nil pointer argument is dereferenced. -/
